@@ -447,4 +447,39 @@ def flex_programs():
     P(hb + "q :- h(X,u). query(q). query(h(a,v)). query(h(b,u)). evidence(h(a,u),false).",
       w + h + [rule(A("q"), [[True, A("h", "X", "u")]])], [A("q"), A("h", "a", "v"), A("h", "b", "u")],
       [(A("h", "a", "u"), False, "pair")])
+    # negation of a non-ground goal (not exists): the reference sees an auxiliary projection
+    nn = [fact("0.3", A("n", "c")), fact("0.6", A("n", "d"))]
+    P("0.3::n(c). 0.6::n(d). q :- \\+n(X). query(q).",
+      nn + [rule(A("aux"), [[True, A("n", "X")]]), rule(A("q"), [[False, A("aux")]])], [A("q")])
+    P("0.3::n(c). 0.6::n(d). 0.5::m(c). 0.5::m(d). p(X) :- n(X), m(X). q :- \\+p(X). r :- q. r :- n(c). query(q). query(r).",
+      nn + [fact("0.5", A("m", "c")), fact("0.5", A("m", "d")), rule(A("p", "X"), [[True, A("n", "X")], [True, A("m", "X")]]),
+            rule(A("aux"), [[True, A("p", "X")]]), rule(A("q"), [[False, A("aux")]]), rule(A("r"), [[True, A("q")]]),
+            rule(A("r"), [[True, A("n", "c")]])], [A("q"), A("r")])
+    P("0.3::n(c). 0.6::n(d). e(c,d). e(d,c). q(X) :- e(X,Y), \\+n(Z). query(q(c)). evidence(n(c),false).",
+      nn + [fact(None, A("e", "c", "d")), fact(None, A("e", "d", "c")), rule(A("aux"), [[True, A("n", "Z")]]),
+            rule(A("q", "X"), [[True, A("e", "X", "Y")], [False, A("aux")]])], [A("q", "c")], [(A("n", "c"), False, "pair")])
     return progs
+
+
+# ---------------------------------------------------------------------------------------------
+# FR: first-order recursion over two unary predicates (self loops and mutual recursion in every
+# clause order)
+
+def fr_programs():
+    X = "X"
+    bodies = {"n": [[True, A("n", X)]], "p": [[True, A("p", X)]], "q": [[True, A("q", X)]]}
+    names = ["n", "p", "q"]
+    orders = []
+    for k in (1, 2, 3):
+        for sel in itertools.permutations(names, k):
+            orders.append(sel)
+    facts = [fact("0.3", A("n", "c")), fact(None, A("n", "d"))]
+    for ps in orders:
+        for qs in orders:
+            # every predicate must be able to terminate somewhere: skip programs without n(X) at all
+            if "n" not in ps and "n" not in qs:
+                continue
+            clauses = list(facts)
+            clauses += [rule(A("p", X), bodies[b]) for b in ps]
+            clauses += [rule(A("q", X), bodies[b]) for b in qs]
+            yield clauses
